@@ -22,11 +22,14 @@ TRUSTED = [
     "harness/render.py + Driver/Render.lean canonical text of graphs; plan extraction from the real dict (c13._real_plan)",
 ]
 PARTIAL = [
-    "C13_div_planner (the planner's output passes the validator for ALL strictly increasing a / sorted b) is proven "
-    "only as far as stated in Props/C13.lean; the gap is closed per input by running the proven validator on every "
-    "enumerated real plan (family plan_validator)",
+    "C13_div_planner (the planner's plan passes the validator) is proven for ALL sizes only for strictly increasing old "
+    "and new divisions with equal end points (C13_div_planner_partial, C13_div_strict_end_to_end); for repeated values in "
+    "the new divisions, forced extension and a repeated last old division the gap is closed per input by running the "
+    "proven validator on every enumerated real plan (family plan_validator) — where it finds D13",
     "float/pandas arithmetic is not modelled: int(i*ratio) boundaries, np.interp divisions, memory usages + iter_chunks, "
     "pd.date_range; their results are checked against the theorems' hypotheses (T3 families)",
+    "split_evenly: Graph.lean's exact cut formula floor(len*i/k) deviates from numpy's float linspace for some (len,k); "
+    "the theorems only use the cut-point predicate boundariesOK, which the real cut points are checked against",
 ]
 EXPLANATION = (
     "Theorems: RepartitionToFewer/ToMore/Size layers return the input rows in order for all sizes given the checked "
@@ -807,7 +810,13 @@ def sig_of(case, msg=None):
         sig["what"] = _tag(msg)
     if k == "divisions":
         a = case["a"]
-        sig.update({"dup_last": len(a) >= 2 and a[-1] == a[-2], "force": bool(case["force"])})
+        b = case["b"]
+        sig.update({"dup_last": len(a) >= 2 and a[-1] == a[-2], "force": bool(case["force"]),
+                    # the D13 shape: every old division equal to v, new divisions ending in [v, v] with at least two
+                    # boundaries below v (needs force)
+                    "old_constant": len(set(a)) == 1,
+                    "new_dup_last": len(b) >= 2 and b[-1] == b[-2],
+                    "new_below_old": sum(1 for x in b if x < a[0]) >= 2})
     elif k == "align":
         a, a2 = case["a"], case["a2"]
         # MaybeAlignPartitions._lower skips the repartition when the aligned divisions have two entries: all operands
